@@ -30,9 +30,14 @@ def header(seq: int, version: int = 0x400, alignment: int = 0x1000, replay_off: 
     return struct.pack("<IIHIQIQQI", sig, 0, seq, version, 0, alignment, replay_off, replay_size, 0x1000)
 
 
-def replay_log(num_entries: int = 0, sig: int = SIG_REPLAY) -> bytes:
+def replay_log(num_entries: int = 0, sig: int = SIG_REPLAY, targets=()) -> bytes:
     h = struct.pack("<IIIBIIIIIB", sig, 0, num_entries, 0, 145, 0, 0, 0, 0, 0)
-    return h + b"\0" * (28 * num_entries)
+    body = b""
+    for i in range(num_entries):
+        off = targets[i % len(targets)] if targets else 0x3000
+        # outstanding (not yet replayed) journal entries: offset, size, two unknown words, checksums
+        body += struct.pack("<QIIIII", off, 0x200, 0, 0, 0, 0)
+    return h + body
 
 
 def entry(typ: int, flags: int, ptbl: int, poff: int, key: bytes, value: bytes, trailer: int = 12, seq: int = 0) -> bytes:
@@ -231,7 +236,7 @@ def build(rng, tree: dict, *, ntables: int = 1, seqs=(3, 7), stale_tables: int =
     out[0 : len(h1)] = h1
     out[0x1000 : 0x1000 + len(h2)] = h2
     out[0x2000 : 0x2000 + len(ot)] = ot
-    rl = replay_log(replay_entries)
+    rl = replay_log(replay_entries, targets=[o for o, _ in table_blobs])
     out[replay_off : replay_off + len(rl)] = rl
     for off, blob in table_blobs:
         out[off : off + len(blob)] = blob
